@@ -5,7 +5,9 @@ Written from the property statement and the GW-BASIC manual (OPEN "R", FIELD, LS
 GET, LOF, LOC), not from pcbasic:
 
   * the file is records 1..H of `reclen` bytes, H = highest record ever PUT; a record below H
-    that was never PUT is all zero bytes; the host file is exactly that image (H * reclen bytes)
+    that was never PUT is all zero bytes; the host file is exactly that image (H * reclen bytes);
+    GET at or after the end, and of a short tail record (file re-opened with a record length that
+    does not divide its length), delivers the bytes present NUL padded to the record length
   * every file number has a record buffer of reclen bytes; FIELD maps consecutive slices of it
     to string variables; LSET / RSET store a string left / right justified, blank padded,
     truncated on the right, into the slice; GET r copies record r into the buffer; PUT r copies
@@ -19,37 +21,49 @@ MAX_RECORD = 2 ** 25
 
 
 class FileImage(object):
-    """The records of one host file."""
+    """
+    The bytes of one host file seen as records of `reclen` bytes. Bytes that were never written (gaps
+    below the end, everything at and after the end, the missing part of a short tail record after a
+    re-OPEN with a record length that does not divide the file length) read as zero bytes.
+    """
 
-    def __init__(self, reclen):
+    def __init__(self, reclen, data=b''):
         self.reclen = reclen
-        self.records = {}
-        self.highest = 0
+        self.data = bytearray(data)
+        # record numbers PUT under this record length (classification only)
+        self.records = set()
 
-    def put(self, r, data):
-        assert len(data) == self.reclen
-        self.records[r] = bytes(data)
-        self.highest = max(self.highest, r)
+    @property
+    def highest(self):
+        """Number of the last record that has at least one byte in the file."""
+        return -(-len(self.data) // self.reclen)
+
+    def put(self, r, rec):
+        assert len(rec) == self.reclen
+        start = (r - 1) * self.reclen
+        if len(self.data) < start:
+            self.data.extend(b'\0' * (start - len(self.data)))
+        self.data[start:start + self.reclen] = rec
+        self.records.add(r)
 
     def get(self, r):
-        """Bytes of record r for 1 <= r <= highest (None beyond the end: not pinned)."""
-        if r > self.highest:
-            return None
-        return self.records.get(r, b'\0' * self.reclen)
+        """Contents delivered by GET r: the record's bytes, NUL padded to the record length (all NUL beyond the end)."""
+        start = (r - 1) * self.reclen
+        return bytes(self.data[start:start + self.reclen]).ljust(self.reclen, b'\0')
+
+    def short_tail(self):
+        return len(self.data) % self.reclen != 0
 
     def lof(self):
-        return self.reclen * self.highest
+        return len(self.data)
 
     def image(self):
-        return b''.join(self.get(r) for r in range(1, self.highest + 1))
+        return bytes(self.data)
 
     def reshaped(self, reclen):
-        """The same bytes seen with another record length (only used when it divides the file length)."""
-        data = self.image()
-        assert len(data) % reclen == 0
-        new = FileImage(reclen)
-        for i in range(len(data) // reclen):
-            new.put(i + 1, data[i * reclen:(i + 1) * reclen])
+        """The same bytes seen with another record length."""
+        new = FileImage(reclen, self.data)
+        new.records = set(range(1, len(self.data) // reclen + 1))
         return new
 
 
@@ -108,8 +122,7 @@ class Channel(object):
 
     def get(self, r=None):
         r = self.next_record() if r is None else r
-        data = self.image.get(r)
-        self.buffer = list(data) if data is not None else [None] * self.image.reclen
+        self.buffer = list(self.image.get(r))
         self.last = r
         return r
 
